@@ -56,6 +56,7 @@ WATCHDOG_S = 20
 class Counter:
     def __init__(self):
         self.n = 0
+        self.depth = 0
         self.installed = False
 
     def install(self):
@@ -70,8 +71,15 @@ class Counter:
                 orig = cls.__dict__["support_function"]
 
                 def wrapped(self_, d, _orig=orig):
-                    me.n += 1
-                    return _orig(self_, d)
+                    # count outermost calls only: Margin.support_function calls the wrapped collider's one,
+                    # which is part of the same support evaluation
+                    if me.depth == 0:
+                        me.n += 1
+                    me.depth += 1
+                    try:
+                        return _orig(self_, d)
+                    finally:
+                        me.depth -= 1
                 setattr(cls, "support_function", wrapped)
         for mod in (N, NP):
             orig = mod.support_function
@@ -99,6 +107,7 @@ def _alarm(signum, frame):
 
 def guarded(fn, *args, **kw):
     COUNTER.n = 0
+    COUNTER.depth = 0
     signal.signal(signal.SIGALRM, _alarm)
     signal.alarm(WATCHDOG_S)
     try:
